@@ -53,6 +53,10 @@ func genTokens(g *Rng, tier string) *Plan {
 		{HTTPS: g.Bool(0.7), Host: "sp0.example.com", EC: ec, KeyIdx: 1, CookieName: Pick(g, "", "", "sess")},
 		{HTTPS: true, Host: "sp1.example.com", EC: ec, KeyIdx: 3},
 	}
+	if g.Bool(0.4) {
+		mwNoise(g, &k.Deploys[0])
+		k.Deploys[0].EntityID = "" // the sibling deployment's claims are derived from the target's base URL
+	}
 	if k.SameKey {
 		k.Deploys[1].KeyIdx = 1
 	}
